@@ -116,7 +116,7 @@ static int parse_hex(const char *s, uint8_t *dst, int max) {
 }
 static int msg_len(const uint8_t *m) { return m[0] + 1; }
 
-#include "drv_ext.inc"
+#include "ext_all.inc"   /* generated at build time from harness/ext_*.inc */
 
 int main(int argc, char **argv) {
 	(void)argc; (void)argv;
